@@ -22,8 +22,8 @@ theorem filterMap_filter_ite {α β} (p : α → Bool) (g : α → Option β) (l
     · simp only [List.filter_cons, hx, if_false, List.filterMap_cons, ih, Bool.false_eq_true]
 
 theorem restore_scan_itemwise (fs : FS) (cwd : CPath) (t v : Bytes) (ns : List Bytes)
-    (h : listdirStr fs cwd (pjoin (normpath t) (b "info")) = some ns) :
-    restoreEntriesOf fs cwd t v = ns.filterMap (restoreItem fs cwd (pjoin (normpath t) (b "info")) v) := by
+    (h : listdirStr fs cwd (pjoin t (b "info")) = some ns) :
+    restoreEntriesOf fs cwd t v = ns.filterMap (restoreItem fs cwd (pjoin t (b "info")) v) := by
   unfold restoreEntriesOf
   simp only [h]
   rw [filterMap_filter_ite]
